@@ -843,7 +843,9 @@ def _const_val(e):
 
 # ------------------------------------------------------------------ R1cv: C intrinsics single-block kernels, lane-precise ----
 C_SINGLE = [("c/blake3_sse2.c", ("-msse2",), "sse2"), ("c/blake3_sse41.c", ("-msse4.1",), "sse41"), ("c/blake3_avx512.c", ("-mavx512f", "-mavx512vl"), "avx512")]
-C_SINGLE_FILTERS = ["compress", "loadu", "storeu", "addv", "xorv", "set1", "set4", "rot", "g1", "g2", "diagonalize", "blend_epi16"]
+C_SINGLE_FILTERS = {"sse2": ["compress", "loadu", "storeu", "addv", "xorv", "set1", "set4", "rot", "g1", "g2", "diagonalize", "blend_epi16"],
+                    "sse41": ["compress", "loadu", "storeu", "addv", "xorv", "set1", "set4", "rot", "g1", "g2", "diagonalize"],
+                    "avx512": ["compress", "loadu_128", "storeu_128", "add_128", "xor_128", "set1_128", "set4", "rot", "g1", "g2", "diagonalize"]}
 
 
 def _tus(path, mflags, filters):
@@ -857,8 +859,9 @@ def rule_R1_cvec(ctx):
     evaluated lane by lane with the exact semantics of every shuffle/blend/unpack, the stored words equal the spec"""
     import cvec
     n = 0
+    tp = _rc.tu("c/blake3_portable.c")
     for path, mflags, isa in C_SINGLE:
-        tus = _tus(path, mflags, C_SINGLE_FILTERS)
+        tus = _tus(path, mflags, C_SINGLE_FILTERS[isa])
         for fname, xof in (("blake3_compress_in_place_%s" % isa, False), ("blake3_compress_xof_%s" % isa, True)):
             n += 1
             T = Terms()
@@ -869,7 +872,8 @@ def rule_R1_cvec(ctx):
             cvc = Cell(CV)
             outc = Cell(tuple(T.sym("out%d" % i) for i in range(64)))
             ov = {"counter_low": lambda cs, a: lo if a[0] == ctr else T.sym("?"), "counter_high": lambda cs, a: hi if a[0] == ctr else T.sym("?")}
-            cs = cvec.CVec(tus, T, overrides=ov, byte_cells=[blk, outc])
+            hdr = CSym([tp], T).glob        # IV / MSG_SCHEDULE of blake3_impl.h (their values are rule KC's business)
+            cs = cvec.CVec(tus, T, globals_={k: v for k, v in hdr.items() if k in ("IV", "MSG_SCHEDULE")}, overrides=ov, byte_cells=[blk, outc])
             f = cs.funcs.get(fname)
             inst = "c-single-block:%s" % fname
             if f is None:
